@@ -186,9 +186,8 @@ Definition check_case (c : case) : N :=
       let same := match m with Ok t => beq t impl | _ => false end in
       let exp := expected_lines prefix status strict checks catalog in
       let spec := if consistent then beq impl (join (sort_desc exp) [10]) else same in
-      let region := if key_collision_b (instances_of checks catalog) then Some 1 else None in
       let all := flat_map e_cmds catalog in
-      verdict same spec region (negb (Nat.eqb (length exp) 0) && negb (Nat.eqb (length exp) (length all)))
+      verdict same spec None (negb (Nat.eqb (length exp) 0) && negb (Nat.eqb (length exp) (length all)))
   | CWatch texts builds evs impl =>
       let h := map (ev_of texts) evs in
       let ok := covered texts builds h [] [] in
@@ -222,8 +221,6 @@ Definition check_case (c : case) : N :=
       let spec := if on_domain
                   then match itbl with Some t => tbl_subset t exp && tbl_subset exp t | None => false end
                   else same in
-      let insts := map (fun c => (c_node c, c_sid c)) checks ++ map (fun r => (r_node r, g_id (r_reg r))) rcat in
-      let region := if key_collision_b insts then Some 1 else None in
-      verdict same spec region (on_domain && negb (Nat.eqb (length exp) 0)
+      verdict same spec None (on_domain && negb (Nat.eqb (length exp) 0)
                                 && existsb (fun r => negb (inst_healthy_b status strict checks r)) rcat)
   end.
